@@ -1,8 +1,9 @@
 From Coq Require Import Extraction ExtrOcamlBasic ZArith.
-From M Require Import base.ExtractBase gen.Consts model.ServerFront.
+From M Require Import base.ExtractBase gen.Consts model.ServerFront model.UserTable.
 Extraction Language OCaml.
 Extraction "model.ml"
   xb_zadd xb_zmul xb_zdiv xb_zmod xb_zopp xb_zltb xb_nadd xb_nmul xb_ndiv xb_nmod xb_z_of_n xb_n_of_z xb_n_of_nat xb_nat_of_n xb_keep
   C05_packetNonHeaderPosition C05_MetadataLength C05_TagOverhead C05_NonceSize C05_ProtoOpenSessionRequest
   hdr_len sig_len minute tcp_front udp_front udp_step udp_run flip_bit
+  compile_users published c_id c_name c_cred
   t_out t_created t_app t_recv t_verdict u_out u_created u_delivered u_verdict u_rc u_sessions.
